@@ -9,7 +9,7 @@ from . import common as K
 ID = "C19"
 LEVEL = "exploration"
 RULE = ("random inputs of the strapdown model: non-unit orientation and mounting quaternions at norms "
-        "{0.1,1,3}, axis-aligned and near-degenerate orientations, all-axis gyro / accelerometer samples, "
+        "{1e-3,1e-2,0.1,1,3} x {1e-3,1e-2,0.5,1,2}, axis-aligned and near-degenerate orientations, all-axis gyro / accelerometer samples, "
         "non-zero bias on every axis, g of either sign, dt in [1e-4,0.5]; at each point an independent "
         "Hamilton-quaternion reference (40-digit mpmath) is compared with (a) the symbolic state_model "
         "evaluated through sympy->mpmath and (b) python.compile(symbolic_model).model(...) with CSE on/off; "
@@ -104,7 +104,7 @@ def reference(p):
 
 def gen_point(rng, names):
     p = {}
-    norm = rng.choice([0.1, 1.0, 3.0])
+    norm = rng.choice([0.1, 1.0, 3.0, 0.1, 1.0, 3.0, 1e-2, 1e-3])   # far from unit norm is still a quaternion
     kind = rng.choice(["rand", "rand", "rand", "axis", "near_degenerate"])
     for pre in ("ori", "cori"):
         if kind == "axis":
@@ -116,7 +116,7 @@ def gen_point(rng, names):
         else:
             v = [rng.gauss(0, 1) for _ in range(4)]
         n = sum(c * c for c in v) ** 0.5 or 1.0
-        s = norm if pre == "ori" else rng.choice([1.0, 1.0, 0.5, 2.0])
+        s = norm if pre == "ori" else rng.choice([1.0, 1.0, 0.5, 2.0, 1.0, 0.5, 1e-2, 1e-3])
         for c, comp in zip("wxyz", v):
             p[pre + c] = comp / n * s
     for nme in names:
